@@ -53,6 +53,55 @@ theorem readBrackets_sids (o : InOpts) (text : Str) (r : List (Nat × Tree)) (h 
 
 example : (readBrackets { firstId := some 7 } "(A a)(B b) (C (D d))".toList).map (·.map (·.1)) = .ok [7, 8, 9] := by rfl
 
+/-! ### MAIN: the automaton against the specification grammar -/
+
+/-- exact form of both MAIN theorems: with an option record that neither rewrites labels (`gfSplit`, `replaceParens`) nor
+    runs the discobracket post-pass, the reader returns exactly the trees of the grammar, numbered from `firstId`,
+    and fails exactly when the grammar rejects the text -/
+theorem readBrackets_eq_spec (o : InOpts) (hg : o.gfSplit = false) (hr : o.replaceParens = false) (hd : o.disco = false) (text : Str) :
+    match specBrackets o.emptyPos text with
+    | some ts => readBrackets o text = .ok ((List.range' (o.firstId.getD 1) ts.length).zip ts)
+    | none => ∃ e, readBrackets o text = .error e :=
+  readBrackets_spec o hg hr hd text
+
+/-- MAIN (soundness of the automaton against the specification grammar, for EVERY text, without options that rewrite labels):
+    whatever the reader accepts is what the grammar says, and what the grammar rejects the reader rejects -/
+theorem readBrackets_sound (text : Str) (ep : Bool) (r : List (Nat × Tree))
+    (h : readBrackets { emptyPos := ep } text = .ok r) :
+    ∃ ts, specBrackets ep text = some ts ∧ ts.length = r.length ∧ ∀ i, (r[i]?).map (fun x => sameTree x.2 ((ts[i]?).getD x.2)) = (r[i]?).map fun _ => true := by
+  have hS := readBrackets_spec { emptyPos := ep } rfl rfl rfl text
+  simp only at hS
+  cases hsp : specBrackets ep text with
+  | none =>
+    rw [hsp] at hS
+    obtain ⟨e, he⟩ := hS
+    rw [he] at h; cases h
+  | some ts =>
+    rw [hsp] at hS
+    simp only at hS
+    rw [hS] at h
+    cases h
+    refine ⟨ts, rfl, by simp, ?_⟩
+    intro i
+    simp only [List.getElem?_zip_eq_some, List.getElem?_range']
+    by_cases hi : i < ts.length
+    · simp [List.getElem?_zip, List.getElem?_range', hi, sameTree_refl]
+    · simp [List.getElem?_zip, hi]
+
+example : readBrackets { emptyPos := true } "(S (NP (DT the) (NN cat)) (VP (VBZ sleeps)) (.))\n junk ((A a))".toList =
+    .ok ((List.range' 1 2).zip ((specBrackets true "(S (NP (DT the) (NN cat)) (VP (VBZ sleeps)) (.))\n junk ((A a))".toList).getD [])) := by rfl
+
+theorem readBrackets_rejects (text : Str) (ep : Bool) (hs : specBrackets ep text = none) :
+    ∃ e, readBrackets { emptyPos := ep } text = .error e := by
+  have hS := readBrackets_spec { emptyPos := ep } rfl rfl rfl text
+  simp only at hS
+  rw [hs] at hS
+  exact hS
+
+example : specBrackets false "(S (A a) b)".toList = none := by rfl
+example : readBrackets {} "(S (A a) b)".toList = .error .valueError := by rfl
+example : specBrackets false "(S (A a)) (B".toList = none := by rfl
+
 /-! ### export reader -/
 open TT.Lemmas.GramOut in
 theorem exportParseLine_v3_v4 (o : InOpts) (w le l m e : Str) (p : Nat)
